@@ -1,6 +1,6 @@
-From RJ Require Import Base.Prelude Model.LEInt Model.Bincode Model.Channel.
+From RJ Require Import Base.Prelude Model.LEInt Model.Bincode Model.Channel Model.WireLink.
 From Coq Require Import Extraction ExtrOcamlBasic ExtrOcamlString.
 Extraction Language OCaml.
 Extraction "extracted/wire.ml" encode_command encode_response serialized_size_command serialized_size_response
   send_size_command send_size_response decode_command decode_response wf_command wf_response
-  chan_init chan_step chan_run.
+  chan_init chan_step chan_run link_class_command link_class_response link_class_name.
